@@ -239,6 +239,36 @@ def order_rule(rep, mod):
              None if got == want else 'the comparison runs over %r, expected begin()/end() of *this then of the argument' % (got,))
 
 
+def valueinit_rule(rep, mod):
+    """R-VALUEINIT: growing a vector of a trivially constructible type value-initialises the new elements (std::vector:
+    resize(n) appends default-inserted elements, int() == 0).  Decided for vector<int>::resize on an empty vector with
+    n >= 1: some reachable store writes into the element storage (the block in m_data or a freshly allocated one); a resize
+    that only moves m_size hands out indeterminate values (`resize(2); resize(5)` shows the old contents)."""
+    fs = [f for f in class_methods(mod, 'igris::vector<int') if base_name(f) == 'resize']
+    if len(fs) != 1:
+        raise AnalysisBroken('igris::vector<int>::resize not instantiated (witness out of date)')
+    f = fs[0]
+    it = Interp(mod, externals=dict(CXX_EXT))
+    hits = []
+
+    def hook(interp, st, inst, p, v):
+        if interp.recording == 0 and isinstance(p, PtrVal):
+            o = st.objs.get(p.obj)
+            if o is not None and o.kind in ('heap', 'deref'):
+                hits.append(inst)
+    it.store_hook = hook
+    run = ContractRun(it, [vec_spec(4)])
+    spec = FnSpec(pre=['m_size == 0', 'n >= 1', 'n <= %d' % CAP])
+    spec.structs = {'this': vec_spec(4)}
+    n = run.run(f.name, spec, fn=f)
+    if not n:
+        raise AnalysisBroken('vector<int>::resize: no return reachable for an empty vector and n >= 1')
+    rep.inst('R-VALUEINIT', f.qualname, 'grow-writes-the-new-elements', bool(hits), '%s:%d' % (f.file, f.line),
+             None if hits else 'resize(n) on an empty vector<int> with n >= 1 returns without a single write into the element '
+             'storage: the new elements are not value-initialised (std::vector gives 0; here they show whatever the storage held, '
+             'e.g. reserve(8), push 11..66, resize(2), resize(5) reads 11 22 33 44 55)', fact={'stores': len(hits)})
+
+
 def run(rep, repo, tier):
     rep.explanation = (
         'Abstract interpretation of every instantiated member of igris::vector<int> and igris::vector<VTr> (probe '
@@ -273,6 +303,8 @@ def run(rep, repo, tier):
     tempref_rule(rep, mod, ['igris::vector<'])
     order_rule(rep, mod)
     rep.floor('R-VECORDER', 2)
+    valueinit_rule(rep, mod)
+    rep.floor('R-VALUEINIT', 1)
     flat_rules(rep, modf)
     rep.floor('R-TEMPREF', 10)
     rep.floor('R-FLATSEARCH', 8)
